@@ -110,3 +110,7 @@ package val
 //@ func (*Val).String
 //@   props C18
 //@   abstract
+
+//@ func (*Val).Key
+//@   props C18
+//@   abstract
